@@ -9,9 +9,9 @@
 (*                                                                         *)
 (*   docs    live documents [input, cells, edited]; cells = ids of the     *)
 (*           objects the document is made of (one per line is enough here) *)
-(*   store   object id -> content (a line id, or "edited" once the caller  *)
-(*           changed the object through the public API: in-place edits     *)
-(*           such as add_final_newline_if_missing, value replacement)      *)
+(*   store   object id -> content (a line id, or Edited = 0 once the       *)
+(*           caller changed the object through the public API: in-place    *)
+(*           edits such as add_final_newline_if_missing, value replacement)*)
 (*   memo    line text -> object id handed out for it (history variable:   *)
 (*           it is always recorded, it is only USED when SharedTokens)     *)
 (*   caller  the caller's list objects as the caller sees them afterwards  *)
@@ -38,10 +38,14 @@ EXTENDS Naturals, Sequences, FiniteSets, TLC
 CONSTANTS LineIds,        \* distinct line texts
           MaxLen,         \* longest input
           MaxDocs,        \* live documents
+          MaxEdits,       \* caller edits per behaviour (keeps the configuration small)
           SharedTokens    \* negative control: objects are cached per line text and reused
 
-VARIABLES docs, store, memo, caller, tgt
-vars == <<docs, store, memo, caller, tgt>>
+VARIABLES docs, store, memo, caller, tgt, edits
+vars == <<docs, store, memo, caller, tgt, edits>>
+
+Edited == 0
+ASSUME Edited \notin LineIds
 
 Inputs == UNION {[1..n -> LineIds] : n \in 1..MaxLen}
 NextId == Cardinality(DOMAIN store) + 1
@@ -60,7 +64,7 @@ Alloc(inp, i, acc) ==
 
 DumpOf(d, st) == [i \in 1..Len(d.cells) |-> st[d.cells[i]]]
 
-Init == docs = <<>> /\ store = <<>> /\ memo = <<>> /\ caller = <<>> /\ tgt = 0
+Init == docs = <<>> /\ store = <<>> /\ memo = <<>> /\ caller = <<>> /\ tgt = 0 /\ edits = 0
 
 Parse(inp) ==
    /\ Len(docs) < MaxDocs
@@ -69,15 +73,17 @@ Parse(inp) ==
          /\ store' = r.store
          /\ memo' = r.memo
    /\ caller' = Append(caller, inp)          \* the parser leaves the caller's list alone
-   /\ tgt' = 0
+   /\ tgt' = 0 /\ edits' = edits
 
 CallerMutates(d, i) ==
-   /\ store' = [store EXCEPT ![docs[d].cells[i]] = "edited"]
+   /\ edits < MaxEdits /\ edits' = edits + 1
+   /\ store' = [store EXCEPT ![docs[d].cells[i]] = Edited]
    /\ docs' = [docs EXCEPT ![d].edited = TRUE]
    /\ tgt' = d
    /\ UNCHANGED <<memo, caller>>
 
 CallerRemoves(d, i) ==
+   /\ edits < MaxEdits /\ edits' = edits + 1
    /\ docs' = [docs EXCEPT ![d].edited = TRUE,
                            ![d].cells = SubSeq(@, 1, i - 1) \o SubSeq(@, i + 1, Len(@))]
    /\ tgt' = d
